@@ -243,7 +243,7 @@ NOT_APPLICABLE = {
     'C02': 'The iterators are thin wrappers over libdw; the property is about libdw\'s decoding of arbitrary ELF/DWARF files. No contract on an external binary-format decoder is within reach of CBMC.',
     'C03': 'Lexical scoping is decided jointly by bison grammar actions, bindings, build_exec and run-time operator state (std::map, shared_ptr graphs); relational over programs, not a per-function contract.',
     'C05': 'Navigation laws quantify over DIEs produced by libdw and cached in std::map/std::vector of C++ values.',
-    'C06': 'Cooked view = libdw traversal plus C++ producers with seen-lists. attribute_producer::next lowers, but a bounded run over even 2 DIEs x 2 attributes did not get through CBMC\'s SSA conversion in 5 minutes; dropped (DESIGN.md section 5). attr_iterator itself is checked under C02.',
+    'C06': 'Cooked view = libdw traversal plus C++ producers with seen-lists. attribute_producer::next lowers, but a bounded run over even 2 DIEs x 2 attributes did not get through CBMC\'s SSA conversion in 5 minutes, and concretely enumerated configurations cost 10 s each (34 113 of them); dropped (DESIGN.md section 5). attr_iterator itself is checked under C02.',
     'C10': 'Termination and exactly-once of * and + rest on std::set with a comparator over polymorphic stacks and on a work-list; liveness over an unbounded history. (The comparator\'s consistency is checked under C09.)',
     'C12': 'Purity across executions is a history property over the compiled operator graph and shared caches.',
     'C14': 'The contract-sized pieces are covered under C08 (parse_int) and C13 (parse_esc_num); "never crashes/hangs/throws across the C boundary for any byte string" lives in the flex/bison-generated scanner and parser and the API\'s exception translation, which the lowering does not reach.',
